@@ -105,8 +105,15 @@ def case_grid(mon: Monitor, rng: random.Random, given=None) -> None:
     far = [(rng.randint(-1000, 1000), rng.randint(-1000, 1000)) for _ in range(3)]
     boxes = {}
     bad = None
-    for idx in idxs + far:
-        gb, e = call(gs.__getitem__, idx) if rng.random() < 0.5 else call(gs.tile_geobox, idx)
+    ityps = [None, None, None, np.int64, np.int32, np.uint32, np.uint8, np.uint64, np.int16]
+    for n_, idx in enumerate(idxs + far):
+        # tile indices as they come out of a table or an array: numpy integers, unsigned ones included (for indices that are not negative)
+        typ = ityps[(n_ * 7 + len(idxs)) % len(ityps)]
+        idx_arg = idx
+        if typ is not None and (min(idx) >= 0 or np.issubdtype(typ, np.signedinteger)) and max(abs(v) for v in idx) < 120:
+            idx_arg = (typ(idx[0]), typ(idx[1]))
+            mon.obs["tile_indices_given_as_numpy_integers"] += 1
+        gb, e = call(gs.__getitem__, idx_arg) if rng.random() < 0.5 else call(gs.tile_geobox, idx_arg)
         if e is not None:
             bad = bad or {"idx": idx, "exc": e}
             continue
